@@ -51,7 +51,7 @@ register("C12", module="cachechecks", fn="case_c12", replay="replay_harness", bi
 
 register("C14", module="cachechecks", fn="case_c14", replay="replay_harness", binaries=("cache",),
          cases={"quick": 24, "thorough": 1200}, budget={"quick": 240, "thorough": 3000}, level="exploration",
-         rule="scenario = generated cache directory (0-8 entries of sha1- and sha256-length keys, several per target, access times clustered around the 600 s grace period, stray `key=` temporaries, non-entry files, compressed or not) + Store/Retrieve operations of the current process before (phase 1) and concurrently with (phase 2) the real clean(high, low), water marks below/at/one above/half/zero of the unprotected size; oracle: entries stored or retrieved before cleaning started survive complete, every key path that still exists retrieves completely, no concurrent Retrieve returns a partial tree, and if the unprotected size reached the high-water mark then afterwards it is below the low-water mark or nothing unprotected is left; distinct_nontrivial = scenarios with >=2 entries, by (seed, schedule length)",
+         rule="scenario = generated cache directory (0-8 entries of sha1- and sha256-length keys, several per target, access times clustered around the 600 s grace period, stray `key=` temporaries, non-entry files, compressed or not) + Store/Retrieve operations of the current process before (phase 1) and concurrently with (phase 2) the real clean(high, low), water marks below/at/one above/half/zero of the unprotected size; a quarter of the cases instead kill the cleaner before EVERY one of its FS operations in turn (c14k) and require that whatever still exists under a key path retrieves completely; oracle: entries stored or retrieved before cleaning started survive complete, every key path that still exists retrieves completely, no concurrent Retrieve returns a partial tree, and if the unprotected size reached the high-water mark then afterwards it is below the low-water mark or nothing unprotected is left; distinct_nontrivial = scenarios with >=2 entries, by (seed, schedule length)",
          assumptions=["sizes are measured as the cleaner measures them (sum of st_size over a walk)", "LRU order is not asserted", "operations concurrent with clean may hit or miss but never return a partial tree"],
          components={"real": REAL_CACHE, "stub": STUB_CACHE})
 
